@@ -28,6 +28,7 @@ FRAGMENTS = [
     ("ImpTables", "gen_impedance"),
     ("H5Appends", "gen_h5"),
     ("PSLoops", "gen_psloops"),
+    ("Physics", "gen_physics"),
 ]
 
 
